@@ -27,7 +27,7 @@ for P in ${PROFILES:-alias dict stream flow typed freeze io sweep}; do
   fi
 done
 # allocation profile: the measured byte counts themselves must repeat
-for t in 1 16; do $BIN batch --profile alloc --seed $SEED --runs 600 --threads $t --show 0 --logdir $OUT/alloc$t >/dev/null 2>&1 & mkdir -p $OUT/alloc$t; done; wait
-if diff -rq $OUT/alloc1 $OUT/alloc16 >/dev/null; then echo "alloc: 600 families, byte counts identical across 1 / 16 workers"; else echo "alloc: DIVERGENCE"; diff -rq $OUT/alloc1 $OUT/alloc16 | head -3; rc=2; fi
+for t in 1 16; do $BIN batch --profile alloc --seed $SEED --runs 2500 --threads $t --show 0 --logdir $OUT/alloc$t >/dev/null 2>&1 & mkdir -p $OUT/alloc$t; done; wait
+if diff -rq $OUT/alloc1 $OUT/alloc16 >/dev/null; then echo "alloc: 2500 families, byte counts identical across 1 / 16 workers"; else echo "alloc: DIVERGENCE"; diff -rq $OUT/alloc1 $OUT/alloc16 | head -3; rc=2; fi
 [ $rc -eq 0 ] && rm -rf $OUT
 exit $rc
